@@ -20,10 +20,11 @@ CLAIMED = {
             "independent oracle. Right level because the quantifier is all layouts x all selector forms.",
             "Box selection (int/slice/list/mask) and level selection are numpy/Python indexing, checked by the oracle only."),
     "C02": ("Lean 4 header/level-header parser models + differential correspondence check",
-            "Proof obligations on the line/token model of PlotfileCooker.__init__/read_boxes/read_cell_headers (Header.parse, "
-            "Taste.parseCellH) and the FAB codec law; every exposed attribute is compared with an independent oracle's parse and "
+            "Proof: C02.field_keys_distinct / field_index / field_first_occurrence (the exposed field table: distinct keys, i-th name under index i, "
+            "first occurrences keep their name), C02.grids_are_cell_centres (linspace grids are the cell centres, over Rat), fab_header_codec, on the "
+            "line/token model of PlotfileCooker.__init__/read_boxes/read_cell_headers (Header.parse, Taste.parseCellH); every exposed attribute is compared with an independent oracle's parse and "
             "with the Lean models for every opening mode (limits 0..finest+1, header_only on a directory holding only the Header, "
-            "maxmins).", "Float tokens are opaque strings in Lean; their numeric value is compared by the oracle."),
+            "maxmins).", "Float tokens are opaque strings in Lean; their numeric value is compared by the oracle. parse-after-render and limit-prefix are not theorems: every opening mode is compared attribute by attribute instead."),
     "C03": ("Lean 4 completeness theorem of the validator walk + differential correspondence check",
             "Proof: Taste.shapeOK_complete (every well-formed binary file is accepted by the byte walk of mp_fun_shape), "
             "headersOK_entry, isLine_canonB, parse_canonB; the whole-plotfile validator model (Taste.tastePlt) is compared with "
